@@ -44,6 +44,11 @@ pub fn key_update_interval() -> u64 {
 fn arm_key_update_hook(seed: u64) {
     // large enough that updates are several PTOs apart (RFC 9001 6.5) at the rates the
     // profile allows; see profiles.rs "C15"
+    // Updates stay several PTOs apart (the regime RFC 9001 6.5 asks for). When an update is
+    // due again within a round trip, the initiator (which waits one PTO of its own) can be
+    // ahead of a peer whose derivation timer has not fired yet, and genuine packets of the
+    // new generation are dropped there: the RFC's "SHOULD wait 3 PTO" exists for that reason,
+    // so it is not held against the implementation (tiny limits are the component engine's job).
     let interval = 500 + (seed % 8) * 150;
     KEY_UPDATE_INTERVAL.store(interval, std::sync::atomic::Ordering::Relaxed);
     std::env::set_var(
